@@ -1,3 +1,4 @@
+import FitProofs.Untouched
 import FitModel.Items
 import FitModel.WF
 import FitModel.Gen.Profile
@@ -242,5 +243,37 @@ theorem whole_file_framing (P : Profile) (o : Opts) (k : HdrKind) (g : Globals) 
           (serialize (.defn d0 b0 :: .data d0.localT fs dev :: rest)).length ++
           serialize (.defn d0 b0 :: .data d0.localT fs dev :: rest))).toNat } }) :=
   decode_frame_ok P o k g proto profile d0 b0 fs dev rest tail stop st' hp hp2 hwf0 hg hkn hlen hfit hrun
+
+
+/-- **An unknown field is skipped**: a field number the profile does not list for the message changes
+    neither the message under construction nor the timestamp reference (its bytes were consumed by
+    the reader — Framing — and nothing else happens). -/
+theorem unknown_field_skipped (P : Profile) (dm : DefMsg) (known : Bool) (fd : FieldDef) (raw : Bytes) (m : Option Msg)
+    (ts : TsRef) (h : P.getField dm.global fd.num = none) :
+    applyField P dm known fd raw m ts = .ok m ts := by
+  unfold applyField
+  rw [h]
+
+/-- **Fields that are not present hold their type's invalid value, and no field disturbs its
+    neighbours.** Decode a data record of a known message under any definition, starting — as the
+    decoder does — from the constructor's message. Every struct field that none of the definition's
+    field numbers designates in the profile (it is absent from the definition; the definition may
+    list other fields, unlisted field numbers, developer fields) holds in the decoded message exactly
+    what the constructor put there: by `entry_invalid` (C15) the invalid value of its type. -/
+theorem absent_fields_stay_invalid (P : Profile) (dm : DefMsg) (raws : List Bytes) (pm : PMsg) (st : DecSt)
+    (m' : Option Msg) (st' : DecSt)
+    (h : stepFields P dm true dm.fields raws (some ⟨dm.global, pm.invalid⟩) st = .ok m' st') (i : Nat)
+    (hi : ∀ fd ∈ dm.fields, ∀ pf, P.getField dm.global fd.num = some pf → pf.sindex ≠ i) :
+    ∃ msg', m' = some msg' ∧ msg'.num = dm.global ∧ msg'.vals[i]? = pm.invalid[i]? :=
+  stepFields_untouched P dm true dm.fields raws ⟨dm.global, pm.invalid⟩ st m' st' h i hi
+
+/-- one field writes one struct position: whatever a field of the record carries, the decoded
+    message differs from the message before it at most at the struct position of that field's
+    profile entry -/
+theorem field_writes_own_position (P : Profile) (dm : DefMsg) (known : Bool) (fd : FieldDef) (raw : Bytes) (msg : Msg)
+    (ts : TsRef) (m' : Option Msg) (ts' : TsRef) (h : applyField P dm known fd raw (some msg) ts = .ok m' ts') :
+    m' = some msg ∨ ∃ pf v, P.getField dm.global fd.num = some pf ∧
+      m' = some { msg with vals := setAt msg.vals pf.sindex v } :=
+  applyField_shape P dm known fd raw msg ts m' ts' h
 
 end Fit.Props.C02
